@@ -129,9 +129,19 @@ impl<'a, 't> ObjectTree<'a, 't> {
 
     fn ensure_object_names(&mut self) {
         let mut gen = UniqueNameGenerator::new();
-        for data in self.nodes.iter_mut().filter(|d| d.name.is_none()) {
+        // Names generated so far are reserved as well. The counters are per prefix, so the
+        // second "label" and the first "label1" would otherwise both be named "label1".
+        let mut reserved_map = self.id_map.clone();
+        for (index, data) in self
+            .nodes
+            .iter_mut()
+            .enumerate()
+            .filter(|(_, d)| d.name.is_none())
+        {
             let prefix = qtname::variable_name_for_type(data.class.name());
-            data.name = Some(gen.generate_with_reserved_map(prefix, &self.id_map));
+            let name = gen.generate_with_reserved_map(prefix, &reserved_map);
+            reserved_map.insert(name.clone(), index);
+            data.name = Some(name);
         }
     }
 
